@@ -26,8 +26,13 @@ def run(ctx):
         "the driver executes the RESOLVING model (Model/ExtractR.lean: walk follows symbolic links as the kernel does, "
         "os.MkdirAll / EnsureNoSymlinks transcribed call by call); C19.resolving_is_lexical proves it equal to the "
         "lexical model of the other theorems when the guard is called, C19.guardless_escapes shows the guard-less "
-        "loops escape; area dstlinkm runs it against the real code with the destination a symbolic link (relative, "
-        "absolute, with dots, a chain, out of the sandbox and back), which exercises the link-following itself",
+        "loops escape; area dstlinkm runs it against the real code with the destination a symbolic link (dl:1..7: "
+        "relative, absolute, with dots, a chain, out of the sandbox and back, chains of 40 links = followed and 41 = "
+        "ELOOP) and with the destination's PARENT missing (dp:1: created by MkdirAll; inside the theorems: RInv allows "
+        "missing ancestors) or a symbolic link / chain / absolute link to a directory elsewhere (dp:2..4: extraction "
+        "lands in the physical place; differential run only, no theorem), which exercises the link-following itself",
+        "not modelled: node types other than directory / regular file / symbolic link (a pre-existing fifo, socket or "
+        "device at an entry path), NAME_MAX/PATH_MAX/NUL, a resolution that traverses more than length+4096 components",
         "privileged process: permission bits never make a call fail (model and correspondence run); for an ordinary "
         "user extract_reproduces' \"no error\" needs u+wx on every directory that later receives a child",
         "archive/tar and archive/zip readers/writers are used as they are; the model sees the entries the readers yield",
